@@ -484,6 +484,17 @@ class Ellipse:
                         # to go inwards.
                         break
 
+            # an invalid isophote (e.g., an ellipse that lies completely
+            # outside of the image) is not stored in the list, so the
+            # sma cannot be grown from it: stop growing, or give up if
+            # nothing could be fitted at all.
+            if not isophote.valid:
+                if not isophote_list:
+                    warnings.warn('No meaningful fit was possible.',
+                                  AstropyUserWarning)
+                    return IsophoteList([])
+                break
+
             # reset variable from the actual list, since the last
             # `isophote` instance may no longer be OK.
             isophote = isophote_list[-1]
